@@ -96,7 +96,8 @@ def _check_field_order(wire: BinaryStr):
         offset += size_len + length
         idx = _LP_FIELD_ORDER.get(typ)
         if idx is not None:
-            if idx <= last:
+            # (Ack is the one repeatable field: a packet may acknowledge several TxSequences)
+            if idx < last or (idx == last and typ != LpTypeNumber.ACK):
                 raise DecodeError(f'NDNLP field of type {typ} is redundant or out-of-order')
             last = idx
 
